@@ -35,6 +35,18 @@ Definition cb_fun (c : cbk) : callback := fun e i all =>
   | CbFalse => EBool false
   | CbTrue => EBool true
   end.
+(* closures that throw at a given index *)
+Inductive tcbk := TcAt1 | TcAt2Zero | TcAt2Pair.
+Definition tcb_fun (c : tcbk) : callbackT := fun e i all =>
+  match c with
+  | TcAt1 => if i =? 1 then None else Some (EBool (i >=? 2))
+  | TcAt2Zero => if i =? 2 then None else Some (EBool (i =? 0))
+  | TcAt2Pair => if i =? 2 then None else Some (EArr [e; EInt i])
+  end.
+(* closures that push 99 onto the receiver (through its real push method) on every invocation *)
+Inductive mcbk := McPush | McPushEq1.
+Definition mcb_fun (c : mcbk) : callback := fun e i all =>
+  match c with McPush => EInt i | McPushEq1 => EBool (i =? 1) end.
 Inductive rcbk := RcAcc | RcAccLen.
 Definition rc_fun (c : rcbk) : rcallback := fun acc e i all =>
   match c with
@@ -42,7 +54,7 @@ Definition rc_fun (c : rcbk) : rcallback := fun acc e i all =>
   | RcAccLen => EArr [acc; EInt (zlen all)]
   end.
 
-Inductive obs := OVal (res : elem) (after : list elem) | OThrow | OPanic | OOther.
+Inductive obs := OVal (res : elem) (after : list elem) | OThrow | OThrowA (after : list elem) | OPanic | OOther.
 (* a step as the engine ran it: named callbacks *)
 Inductive sstep := SsCall (m : meth) (args : list elem) | SsCb (m : meth) (c : cbk) | SsRed (c : rcbk) (init : list elem).
 Definition step_of (s : sstep) : step :=
@@ -58,6 +70,8 @@ Inductive case :=
 | CCb (m : meth) (c : cbk) (recv : list elem) (o : obs)
 | CRed (c : rcbk) (recv init : list elem) (o : obs)
 | CLen (recv : list elem) (o : obs)
+| CCbT (m : meth) (c : tcbk) (recv : list elem) (o : obs)      (* throwing callback *)
+| CCbM (m : meth) (c : mcbk) (recv : list elem) (o : obs)      (* callback mutating the receiver *)
 | CSeq (recv : list elem) (steps : list (sstep * obs)).
 
 Definition pair_agree (p : elem * list elem) (o : obs) : bool :=
@@ -139,5 +153,27 @@ Definition check_case (c : case) : list nat :=
       (if not_panic o then [] else [4%nat])
   | CLen recv o =>
       (if pair_agree (EInt (zlen recv), recv) o then [] else [1%nat; 2%nat])
+  | CCbT m c recv o =>
+      (* clause 1: model; clause 2: a throw that is reached comes out and the receiver is untouched,
+         a callback that does not throw in reach gives the documented result *)
+      let p := call_cbT m (tcb_fun c) recv in
+      (match fst p, o with
+       | Some v, OVal r a => if elem_eqb v r && list_eqb (snd p) a then [] else [1%nat]
+       | None, OThrowA a => if list_eqb (snd p) a then [] else [1%nat]
+       | _, _ => [1%nat]
+       end) ++
+      (match o with
+       | OThrowA a => if list_eqb recv a then [] else [3%nat]
+       | OVal _ a => if list_eqb recv a then [] else [3%nat]
+       | _ => []
+       end) ++
+      (if not_panic o then [] else [4%nat])
+  | CCbM m c recv o =>
+      (* the method visits exactly the elements the receiver had when the call started; the pushes
+         made by the callback stay in the receiver *)
+      let expected := (fst (call_cb m (mcb_fun c) recv),
+                       (recv ++ repeat (EInt 99) (visits m (mcb_fun c) recv))%list) in
+      (if pair_agree expected o then [] else [1%nat; 2%nat]) ++
+      (if not_panic o then [] else [4%nat])
   | CSeq recv steps => check_seq 0 recv steps
   end.
